@@ -43,12 +43,8 @@ CHECKS["C11"] = {
             "are proved separately where listed in the evidence.",
 }
 CHECKS["C15"] = {
-    "text": "ThreadLocal get/set/clear/is_set are proved to touch only the calling thread's entry of the instance's own "
-            "store; CallbackContext.at_location equals the (file, function, opening-event) table; __process_call_backs "
-            "processes the top pending context exactly once iff it matches and leaves the store consistent on every exit.",
-    "note": "frame identity and completion of all matching contexts are recorded known findings; thread interleavings "
-            "and CPython's event order for generators are not modelled; span/capture callbacks enter by coarse contracts "
-            "until refined.",
+    "text": "ThreadLocal get/set/clear/is_set are proved to touch only the calling thread's entry of the instance's own store; CallbackContext.at_location equals the (file, function, opening-event) table; __process_call_backs processes the top pending context exactly once iff it matches and leaves the store consistent on every exit; the deferred snapshot callback captures the value returned / exception raised of this very event (arg) once, with the action context that collected the snapshot, adds it to the pending snapshot and hands that snapshot over exactly once; span callbacks close every span once.",
+    "note": "frame identity and completion of all matching contexts are recorded known findings; thread interleavings and CPython's event order for generators are not modelled; CallbackContext.process enters by a coarse contract.",
 }
 CHECKS["C05"] = {
     "text": "truncate_string (cut + flag exactly when cut), process_list_breadth_first (capped prefix in order, unbounded "
@@ -92,13 +88,8 @@ CHECKS["C07"] = {
             "termination is not proved.",
 }
 CHECKS["C14"] = {
-    "text": "TriggerHandler.start is proved to save the previous sys/threading hooks before installing its own trace "
-            "function in both, and to touch nothing when tracing is disabled; shutdown puts back exactly the saved hooks "
-            "and leaves foreign hooks alone when it never installed its own; Deep.shutdown is proved to run every step "
-            "exactly once and every plugin's shutdown, to let nothing escape and to end marked stopped, for every subset "
-            "of failing steps; nothing at all happens when not started.",
-    "note": "sys/threading trace accessors are ghost state (trusted); step failures are Exceptions (KeyboardInterrupt "
-            "etc. out of scope); Deep.start idempotence and liveness of the timer thread are not decided here.",
+    "text": "TriggerHandler.start is proved to save the previous sys/threading hooks before installing its own trace function in both, and to touch nothing when tracing is disabled; shutdown puts back exactly the saved hooks and leaves foreign hooks alone when it never installed its own; Deep.shutdown is proved to run every step exactly once and every plugin's shutdown, to let nothing escape and to end marked stopped, for every subset of failing steps; nothing at all happens when not started.",
+    "note": 'sys/threading trace accessors are ghost state (trusted); step failures are Exceptions (KeyboardInterrupt etc. out of scope); Deep.start is proved to do nothing when already started and to run every start step once in order (C20 contract) - a start that fails half way (bad settings) leaves the agent not started with hooks possibly installed: not decided; liveness of the timer thread is not decided here.',
 }
 CHECKS["C17"] = {
     "text": "MetricActionContext._process_action is proved to report each metric once per processor through the "
@@ -118,11 +109,8 @@ CHECKS["C19"] = {
             "z3 with cvc5 as second back end; APP_ROOT derivation in deep.start and docs are not covered.",
 }
 CHECKS["C20"] = {
-    "text": "Per-iteration isolation proved for every loop over plugins: metric dispatch, span creation, span close, "
-            "plugin shutdown (an arbitrary Exception at the plugin call does not end the loop); TriggerContext.__exit__ "
-            "contains Exceptions per result.",
-    "note": "plugin loading/ordering (load_plugins) and resource providers in Deep.start are not yet under contract; "
-            "plugins are assumed not to mutate agent objects.",
+    "text": 'Plugin loading is proved element by element: an entry that cannot be imported yields nothing and does not end the import generator; a class that fails to construct or a plugin that is switched off is skipped, an active one is added exactly once, constructed with the config; the result is sorted once, ascending, by order() (None = 0). Plugin.is_active reads its own PLUGIN_<NAME> switch (absent -> active, otherwise the truthy table of its text). The ConfigService views yield exactly the plugins of their kind in loading order. Deep.start does nothing when started, otherwise loads plugins from the configured list, builds the resource asking every provider once (a failing provider costs only its own contribution), and starts tracing, connection and polling once each in order. Snapshot decoration asks every decorator once for this snapshot and action, merges only returned decorations, contains a failing decorator, and merges the result into the snapshot; the send result hands over exactly once after decorating. Per-iteration isolation is also proved for metric dispatch, span creation, span close and plugin shutdown; TriggerContext.__exit__ contains exceptions per result.',
+    "note": "plugin objects and classes are host values with the documented callback interface (is_active/order/resource/decorate/... may each raise any Exception; name is a plain attribute); generators are consumed eagerly (producer/consumer interleaving not modelled); importlib is a trusted model; a plugin's order() failing escapes load_plugins (declared signal); decorations are assumed to hold primitive values (domain of the C18 contracts).",
 }
 CHECKS["C08"] = {
     "text": "Every conversion helper (variable id, variable, frame, watch, tracepoint, variable table, attribute value, "
@@ -176,14 +164,7 @@ CHECKS["C16"] = {
             "collect() only (see C02).",
 }
 CHECKS["C18"] = {
-    "text": "BoundedAttributes.__setitem__ is proved against a whole-view specification over the (key order, map) view: "
-            "frozen -> TypeError and nothing changes; capacity 0 -> only the drop is counted; invalid value -> nothing "
-            "changes; existing key -> replaced and moved to the end without a drop; full -> the OLDEST entry is evicted "
-            "and the drop counted; every other key untouched; capacity never exceeded.  __delitem__, __init__ (filled "
-            "through the same operation, frozen last), merge_in, copy (a copy), the value-cleaning rule and "
-            "Resource.merge (other wins key by key, schema rule, neither operand modified) are proved likewise.",
-    "note": "OrderedDict is a trusted model (dict + key list with a representation invariant); sequence cleaning in "
-            "_clean_attribute, Resource.create / the environment detector and plugin resources in Deep.start are not "
-            "covered; bytes subclasses are not modelled.",
+    "text": 'BoundedAttributes.__setitem__ is proved against a whole-view specification over the (key order, map) view: frozen -> TypeError and nothing changes; capacity 0 -> only the drop is counted; invalid value -> nothing changes; existing key -> replaced and moved to the end without a drop; full -> the OLDEST entry is evicted and the drop counted; every other key untouched; capacity never exceeded.  __delitem__, __init__ (filled through the same operation, frozen last), merge_in, copy (a copy), the value-cleaning rule and Resource.merge (other wins key by key, schema rule, neither operand modified) are proved likewise.',
+    "note": "OrderedDict is a trusted model (dict + key list with a representation invariant); the contracts cover stores of primitive values (sequence cleaning in _clean_attribute is outside the engine's subset; the store invariant allows sequences of primitives so that C08 covers them on the wire); Resource.create / the environment detector are not covered; plugin resources in Deep.start are merged in provider order (C20 contract); bytes subclasses are not modelled.",
 }
 NOT_APPLICABLE = {}
